@@ -175,7 +175,7 @@ def build_universe(case):
 
 
 def case_strategy(weights, max_len, cfg=None, names=ops.NAMES, keys=ops.KEYS, own_bias=3,
-                  policies=("DEFAULT", "DEFAULT", "EDIF")):
+                  policies=("DEFAULT", "DEFAULT", "EDIF"), odd_positions=False):
     cfg = cfg or gen_ir.Cfg(max_defs=4, max_children=3, max_width=2, max_libs=2, unnamed=True,
                             top="maybe", top_modes=["standalone", "definition", "child"],
                             noref_children=True, alphabet=["a", "A", "b", "c", "d", "e", ""])
@@ -186,7 +186,7 @@ def case_strategy(weights, max_len, cfg=None, names=ops.NAMES, keys=ops.KEYS, ow
         "design": st.one_of(st.none(), gen_ir.recipes(cfg), gen_ir.recipes(cfg), gen_ir.recipes(cfg),
                             gen_ir.recipes(cfg)),
         "design2": st.one_of(st.none(), st.none(), gen_ir.recipes(small)),
-        "ops": ops.histories(weights, max_len, names, keys, own_bias),
+        "ops": ops.histories(weights, max_len, names, keys, own_bias, odd_positions=odd_positions),
     })
 
 
@@ -208,7 +208,7 @@ class C01(Prop):
     N = {"quick": 6400, "thorough": 60000}
 
     def strategy(self, tier):
-        return case_strategy(WEIGHTS, 40 if tier == "quick" else 120)
+        return case_strategy(WEIGHTS, 40 if tier == "quick" else 120, odd_positions=True)
 
     def run(self, case):
         res = Result()
